@@ -3,9 +3,20 @@
 package block
 
 import (
+	"time"
+
+	"github.com/ElrondNetwork/elrond-go/config"
+	"github.com/ElrondNetwork/elrond-go/core"
+	"github.com/ElrondNetwork/elrond-go/data"
 	"github.com/ElrondNetwork/elrond-go/data/block"
+	"github.com/ElrondNetwork/elrond-go/data/state"
 	"github.com/ElrondNetwork/elrond-go/hashing"
 	"github.com/ElrondNetwork/elrond-go/marshal"
+	"github.com/ElrondNetwork/elrond-go/process"
+	"github.com/ElrondNetwork/elrond-go/process/block/bootstrapStorage"
+	"github.com/ElrondNetwork/elrond-go/process/mock"
+	"github.com/ElrondNetwork/elrond-go/testscommon"
+	"github.com/ElrondNetwork/elrond-go/testscommon/dblookupext"
 )
 
 // VerifC19CheckHeaderBodyCorrelation calls the real (unexported)
@@ -19,4 +30,103 @@ func VerifC19CheckHeaderBodyCorrelation(
 ) error {
 	bp := &baseProcessor{marshalizer: marshalizer, hasher: hasher}
 	return bp.checkHeaderBodyCorrelation(miniBlockHeaders, body)
+}
+
+// verifC19BaseArgs builds the collaborators of a block processor from the repository's own
+// stubs (process/mock, testscommon), the way the package's tests do (createMockComponentHolders
+// / CreateMockArguments / createMockMetaArguments), with the given marshalizer and hasher.
+// Every collaborator accepts everything, so the header/body correlation check is the only
+// stage of ProcessBlock that ties the body to the header's miniblock list.
+func verifC19BaseArgs(marshalizer marshal.Marshalizer, hasher hashing.Hasher) ArgBaseProcessor {
+	coreComponents := &mock.CoreComponentsMock{
+		IntMarsh:            marshalizer,
+		Hash:                hasher,
+		UInt64ByteSliceConv: &mock.Uint64ByteSliceConverterMock{},
+		StatusField:         &mock.AppStatusHandlerStub{},
+		RoundField:          &mock.RoundHandlerMock{RoundTimeDuration: time.Second},
+	}
+	dataComponents := &mock.DataComponentsMock{
+		Storage:  &mock.ChainStorerMock{},
+		DataPool: testscommon.NewPoolsHolderMock(),
+		BlockChain: &mock.BlockChainMock{GetGenesisHeaderCalled: func() data.HeaderHandler {
+			return &block.Header{Nonce: 0}
+		}},
+	}
+	bootstrapComponents := &mock.BootstrapComponentsMock{
+		Coordinator:          mock.NewOneShardCoordinatorMock(),
+		HdrIntegrityVerifier: &mock.HeaderIntegrityVerifierStub{},
+	}
+	statusComponents := &mock.StatusComponentsMock{
+		Indexer:      &mock.IndexerMock{},
+		TPSBenchmark: &testscommon.TpsBenchmarkMock{},
+	}
+	headerValidator, _ := NewHeaderValidator(ArgsHeaderValidator{Hasher: hasher, Marshalizer: marshalizer})
+
+	rootHash := []byte("roothash")
+	startHeaders := map[uint32]data.HeaderHandler{
+		0: &block.Header{Signature: rootHash, RandSeed: rootHash, PrevRandSeed: rootHash,
+			PubKeysBitmap: rootHash, RootHash: rootHash, PrevHash: rootHash},
+		core.MetachainShardId: &block.MetaBlock{Signature: rootHash, RandSeed: rootHash, PrevRandSeed: rootHash,
+			PubKeysBitmap: rootHash, RootHash: rootHash, PrevHash: rootHash},
+	}
+	accountsDb := make(map[state.AccountsDbIdentifier]state.AccountsAdapter)
+	accountsDb[state.UserAccountsState] = &testscommon.AccountsStub{
+		CommitCalled: func() ([]byte, error) { return nil, nil },
+	}
+	accountsDb[state.PeerAccountsState] = &testscommon.AccountsStub{
+		CommitCalled: func() ([]byte, error) { return nil, nil },
+	}
+
+	return ArgBaseProcessor{
+		CoreComponents:      coreComponents,
+		DataComponents:      dataComponents,
+		BootstrapComponents: bootstrapComponents,
+		StatusComponents:    statusComponents,
+		Config:              config.Config{},
+		AccountsDB:          accountsDb,
+		ForkDetector:        &mock.ForkDetectorMock{},
+		NodesCoordinator:    mock.NewNodesCoordinatorMock(),
+		FeeHandler:          &mock.FeeAccumulatorStub{},
+		RequestHandler:      &testscommon.RequestHandlerStub{},
+		BlockChainHook:      &mock.BlockChainHookHandlerMock{},
+		TxCoordinator:       &mock.TransactionCoordinatorMock{},
+		EpochStartTrigger:   &mock.EpochStartTriggerStub{},
+		HeaderValidator:     headerValidator,
+		BootStorer: &mock.BoostrapStorerMock{
+			PutCalled: func(round int64, bootData bootstrapStorage.BootstrapData) error { return nil },
+		},
+		BlockTracker:       mock.NewBlockTrackerMock(bootstrapComponents.ShardCoordinator(), startHeaders),
+		BlockSizeThrottler: &mock.BlockSizeThrottlerStub{},
+		Version:            "softwareVersion",
+		HistoryRepository:  &dblookupext.HistoryRepositoryStub{},
+		EpochNotifier:      &mock.EpochNotifierStub{},
+	}
+}
+
+// VerifC19NewShardProcessor builds a shard block processor through the real NewShardProcessor.
+func VerifC19NewShardProcessor(marshalizer marshal.Marshalizer, hasher hashing.Hasher) (process.BlockProcessor, error) {
+	sp, err := NewShardProcessor(ArgShardProcessor{ArgBaseProcessor: verifC19BaseArgs(marshalizer, hasher)})
+	if err != nil {
+		return nil, err
+	}
+	return sp, nil
+}
+
+// VerifC19NewMetaProcessor builds a metachain block processor through the real NewMetaProcessor.
+func VerifC19NewMetaProcessor(marshalizer marshal.Marshalizer, hasher hashing.Hasher) (process.BlockProcessor, error) {
+	mp, err := NewMetaProcessor(ArgMetaProcessor{
+		ArgBaseProcessor:             verifC19BaseArgs(marshalizer, hasher),
+		SCToProtocol:                 &mock.SCToProtocolStub{},
+		PendingMiniBlocksHandler:     &mock.PendingMiniBlocksHandlerStub{},
+		EpochStartDataCreator:        &mock.EpochStartDataCreatorStub{},
+		EpochEconomics:               &mock.EpochEconomicsStub{},
+		EpochRewardsCreator:          &mock.EpochRewardsCreatorStub{},
+		EpochValidatorInfoCreator:    &mock.EpochValidatorInfoCreatorStub{},
+		ValidatorStatisticsProcessor: &mock.ValidatorStatisticsProcessorStub{},
+		EpochSystemSCProcessor:       &mock.EpochStartSystemSCStub{},
+	})
+	if err != nil {
+		return nil, err
+	}
+	return mp, nil
 }
